@@ -42,6 +42,9 @@ FIRST = {
     'y09-C19': 'analysis error only (anchor `for f in dataclasses.fields(cls)` wrapped in sorted()) -> DC1 declaration-order',
     'y04-C09': 'missed -> new rule F11 (two unconditional pairwise passes)',
     'y07-C17': 'caught by C12 only -> G3 added to C17',
+    'y01-C01': 'caught', 'y02-C02': 'caught',
+    'y06-C13': 'missed -> D2 mode-read-once',
+    'y08-C18': 'missed -> new rule T7 (struct sequence field listing)',
 }
 
 
